@@ -369,3 +369,130 @@ fire("c08-missing-var-logaddexp", "C08", TERMS,
 silent("c08-s-guard-positive-form", "C08", OPTIMIZER,
        "    if (red_op, bin_op) not in DISTRIBUTIVE_OPS:\n        return None\n\n    # build opt_einsum optimizer IR",
        "    distributes = (red_op, bin_op) in DISTRIBUTIVE_OPS\n    if not distributes:\n        return None\n\n    # build opt_einsum optimizer IR")
+
+# ----------------------------------------------------------------------------------------------------------------- C06
+fire("c06-reduction-reads-dim", "C06", DOMAINS,
+     "    dim = op.defaults.get(\"axis\", None)\n    ndims = len(domain.shape)", "    dim = op.defaults.get(\"dim\", None)\n    ndims = len(domain.shape)", "R06.1", "_find_domain_reduction")
+fire("c06-reduction-reads-keepdim", "C06", DOMAINS,
+     "    if op.defaults.get(\"keepdims\", False):", "    if op.defaults.get(\"keepdim\", False):", "R06.1", "_find_domain_reduction")
+fire("c06-cat-reads-dim", "C06", DOMAINS,
+     "def _find_domain_cat(op, parts):\n    dim = op.defaults[\"axis\"]", "def _find_domain_cat(op, parts):\n    dim = op.defaults[\"dim\"]", "R06.1", "_find_domain_cat")
+fire("c06-mod-size-too-small", "C06", DOMAINS,
+     "            dtype = max(0, rhs.dtype - 1)", "            dtype = max(0, rhs.dtype - 2)", "R06.2", "mod")
+fire("c06-add-size-off-by-one", "C06", DOMAINS,
+     "        dtype = op(lhs.dtype - 1, rhs.dtype - 1) + 1", "        dtype = op(lhs.dtype - 1, rhs.dtype - 1)", "R06.2")
+fire("c06-eager-dtype-from-swapped-operands", "C06", TENSOR,
+     "def eager_binary_number_tensor(op, lhs, rhs):\n    dtype = find_domain(op, lhs.output, rhs.output).dtype",
+     "def eager_binary_number_tensor(op, lhs, rhs):\n    dtype = find_domain(op, rhs.output, lhs.output).dtype", "R06.3", "eager_binary_number_tensor")
+fire("c06-eager-dtype-from-lhs-only", "C06", TENSOR,
+     "def eager_binary_tensor_number(op, lhs, rhs):\n    dtype = find_domain(op, lhs.output, rhs.output).dtype",
+     "def eager_binary_tensor_number(op, lhs, rhs):\n    dtype = lhs.dtype", "R06.3", "eager_binary_tensor_number")
+fire("c06-tensor-output-ignores-inputs", "C06", TENSOR,
+     "        output = Array[dtype, data.shape[len(inputs) :]]", "        output = Array[dtype, data.shape[len(inputs) + 1 :]]", "R06.4", "Tensor.__init__")
+silent("c06-s-reduction-subscript-form", "C06", DOMAINS,
+       "    if op.defaults.get(\"keepdims\", False):", "    if op.defaults[\"keepdims\"]:")
+silent("c06-s-mod-size-sound-but-looser", "C06", DOMAINS,
+       "            dtype = max(0, rhs.dtype - 1)", "            dtype = rhs.dtype")
+silent("c06-s-local-alias-of-size", "C06", DOMAINS,
+       "            size = (lhs.size - 1) // (rhs.size - 1) + 1\n            return Array[size, shape]",
+       "            n, d = lhs.size, rhs.size\n            size = (n - 1) // (d - 1) + 1\n            return Array[size, shape]")
+
+# ----------------------------------------------------------------------------------------------------------------- C16
+REGISTRY = "funsor/registry.py"
+fire("c16-dispatch-on-first-arg-only", "C16", REGISTRY,
+     "        types = tuple(map(typing_wrap, map(deep_type, args)))", "        types = tuple(map(typing_wrap, map(deep_type, args[:1])))", "R16.1", "partial_call")
+fire("c16-cache-write-under-other-key", "C16", REGISTRY,
+     "            self._cache[types] = func\n        return func", "            self._cache[types[:1]] = func\n        return func", "R16.1", "partial_call")
+fire("c16-cache-keyed-by-shallow-type", "C16", REGISTRY,
+     "        try:\n            func = self._cache[types]\n        except KeyError:",
+     "        shallow = tuple(map(type, args))\n        try:\n            func = self._cache[shallow]\n        except KeyError:", "R16.1", "partial_call")
+fire("c16-duplicate-signature-different-rule", "C16", TENSOR, "<<EOF>>",
+     "\n\n@eager.register(Binary, BinaryOp, Tensor, Number)\ndef eager_binary_tensor_number_fast(op, lhs, rhs):\n    data = op(lhs.data, rhs.data)\n    return Tensor(data, lhs.inputs, lhs.dtype)\n",
+     "R16.3")
+fire("c16-pattern-arity-too-short", "C16", TENSOR, "<<EOF>>",
+     "\n\n@eager.register(Binary, BinaryOp, Tensor)\ndef eager_binary_tensor_any(op, lhs):\n    return None\n", "R16.4")
+fire("c16-rule-takes-too-few-params", "C16", TENSOR,
+     "@eager.register(Binary, BinaryOp, Tensor, Number)\ndef eager_binary_tensor_number(op, lhs, rhs):\n    dtype = find_domain(op, lhs.output, rhs.output).dtype\n    data = op(lhs.data, rhs.data)",
+     "@eager.register(Binary, BinaryOp, Tensor, Number)\ndef eager_binary_tensor_number(op, lhs):\n    rhs = lhs\n    dtype = find_domain(op, lhs.output, rhs.output).dtype\n    data = op(lhs.data, rhs.data)", "R16.4")
+fire("c16-reflect-types-from-partial-args", "C16", TERMS,
+     "    arg_types = tuple(map(deep_type, args))", "    arg_types = tuple(map(deep_type, args[:-1])) + (object,)", "R16.5", "reflect")
+fire("c16-subtype-oracle-counts-calls", "C16", TYPING,
+     "@functools.lru_cache(maxsize=None)\ndef deep_issubclass(subcls, cls):", "_CALLS = []\n\n\n@functools.lru_cache(maxsize=None)\ndef deep_issubclass(subcls, cls):\n    _CALLS.append(subcls)\n    if len(_CALLS) > 1000:\n        return False", "R16.2")
+silent("c16-s-types-via-generator", "C16", REGISTRY,
+       "        types = tuple(map(typing_wrap, map(deep_type, args)))", "        types = tuple(typing_wrap(deep_type(arg)) for arg in args)")
+silent("c16-s-identical-duplicate", "C16", CNF, "<<EOF>>",
+       "\n\n@normalize.register(Binary, ops.SubOp, Funsor, Funsor)\ndef binary_subtract(op, lhs, rhs):\n    return lhs + -rhs\n")
+silent("c16-s-new-unrelated-pattern", "C16", TENSOR, "<<EOF>>",
+       "\n\n@eager.register(Binary, ops.GetitemOp, Number, Number)\ndef eager_getitem_number_number(op, lhs, rhs):\n    return None\n")
+
+# ----------------------------------------------------------------------------------------------------------------- C18
+PROGRAM = "funsor/ops/program.py"
+COMPILER = "funsor/compiler.py"
+fire("c18-ascode-inputs-before-constants", "C18", PROGRAM,
+     "        for c in self.constants:\n            let(c)\n        for name in self.inputs:\n            let(name)\n",
+     "        for name in self.inputs:\n            let(name)\n        for c in self.constants:\n            let(c)\n", "R18.1", "as_code")
+fire("c18-call-inputs-before-constants", "C18", PROGRAM,
+     "        env = list(self.constants)\n",
+     "        env = []\n", "R18.1", "__call__")
+fire("c18-compiler-inputs-before-constants", "C18", COMPILER,
+     "    # Collect constants (leaves).\n    constants = []\n    for f in anf:\n        if isinstance(f, (Number, Tensor)):\n            ids[f] = len(ids)\n            constants.append(f.data)\n\n    # Collect input variables (leaves).\n    inputs = []\n    for k, d in expr.inputs.items():\n        f = Variable(k, d)\n        ids[f] = len(ids)\n        inputs.append(k)\n",
+     "    # Collect input variables (leaves).\n    inputs = []\n    for k, d in expr.inputs.items():\n        f = Variable(k, d)\n        ids[f] = len(ids)\n        inputs.append(k)\n\n    # Collect constants (leaves).\n    constants = []\n    for f in anf:\n        if isinstance(f, (Number, Tensor)):\n            ids[f] = len(ids)\n            constants.append(f.data)\n",
+     "R18.1", "compile_funsor")
+fire("c18-unexpected-kwargs-ignored", "C18", PROGRAM,
+     "        if kwargs:\n            raise ValueError(f\"Unrecognized kwargs: {set(kwargs)}\")\n", "", "R18.2", "__call__")
+fire("c18-missing-input-defaults-to-zero", "C18", PROGRAM,
+     "            if value is None:\n                raise ValueError(f\"Missing kwarg: {repr(name)}\")\n",
+     "            if value is None:\n                value = 0.0\n", "R18.2", "__call__")
+fire("c18-binary-operands-swapped", "C18", COMPILER,
+     "            arg_ids = (ids[f.lhs], ids[f.rhs])", "            arg_ids = (ids[f.rhs], ids[f.lhs])", "R18.3", "compile_funsor")
+fire("c18-lower-binary-swapped", "C18", COMPILER,
+     "    return Binary(x.op, lhs, rhs)", "    return Binary(x.op, rhs, lhs)", "R18.3", "_lower_binary")
+fire("c18-lower-contraction-folds-reversed", "C18", COMPILER,
+     "    terms = [_lower(term) for term in x.terms]", "    terms = [_lower(term) for term in reversed(x.terms)]", "R18.3", "_lower_contraction")
+fire("c18-result-is-first-slot", "C18", PROGRAM,
+     "        result = env[-1]\n        return result", "        result = env[0]\n        return result", "R18.4", "__call__")
+fire("c18-lower-contraction-ignores-reduction", "C18", COMPILER,
+     "    if x.reduced_vars:\n        raise NotImplementedError(\"TODO\")\n\n", "", "R18.5", "_lower_contraction")
+fire("c18-compiler-skips-unknown-nodes", "C18", COMPILER,
+     "        else:\n            raise NotImplementedError(type(f).__name__)\n\n    return OpProgram", "        else:\n            continue\n\n    return OpProgram", "R18.5", "compile_funsor")
+fire("c18-program-keeps-mutable-lists", "C18", PROGRAM,
+     "        self.operations = tuple(operations)", "        self.operations = operations", "R18.6", "OpProgram.__init__")
+silent("c18-s-call-explicit-membership-test", "C18", PROGRAM,
+       "            value = kwargs.pop(name, None)\n            if value is None:\n                raise ValueError(f\"Missing kwarg: {repr(name)}\")\n",
+       "            if name not in kwargs:\n                raise ValueError(f\"Missing kwarg: {repr(name)}\")\n            value = kwargs.pop(name)\n")
+silent("c18-s-ascode-renamed-locals", "C18", PROGRAM,
+       "        for c in self.constants:\n            let(c)\n        for name in self.inputs:\n            let(name)\n",
+       "        for const in self.constants:\n            let(const)\n        for input_name in self.inputs:\n            let(input_name)\n")
+silent("c18-s-result-via-pop", "C18", PROGRAM,
+       "        result = env[-1]\n        return result", "        return env[-1]")
+
+# ----------------------------------------------------------------------------------------------------------------- C11
+fire("c11-product-rule-uncrossed", "C11", ADJOINT,
+     "        lhs_adj = adj_prod_op(out_adj, rhs)\n        rhs_adj = adj_prod_op(out_adj, lhs)\n        return ((lhs, lhs_adj), (rhs, rhs_adj))",
+     "        lhs_adj = adj_prod_op(out_adj, lhs)\n        rhs_adj = adj_prod_op(out_adj, rhs)\n        return ((lhs, lhs_adj), (rhs, rhs_adj))", "R11.4", "adjoint_binary")
+fire("c11-contract-rule-uncrossed", "C11", ADJOINT,
+     "        lhs_adj = adj_prod_op(out_adj, rhs)\n        rhs_adj = adj_prod_op(lhs, out_adj)\n",
+     "        lhs_adj = adj_prod_op(out_adj, rhs)\n        rhs_adj = adj_prod_op(rhs, out_adj)\n", "R11.4", "adjoint_contract")
+fire("c11-zero-from-prod-unit", "C11", ADJOINT,
+     "        zero = to_funsor(ops.UNITS[sum_op])\n        one = to_funsor(ops.UNITS[bin_op])",
+     "        zero = to_funsor(ops.UNITS[bin_op])\n        one = to_funsor(ops.UNITS[sum_op])", "R11.3")
+fire("c11-root-seeded-with-zero", "C11", ADJOINT,
+     "        adjoint_values[root] = one\n", "        adjoint_values[root] = zero\n", "R11.3")
+fire("c11-tape-fifo", "C11", ADJOINT,
+     "            output, fn, inputs = self.tape.pop()", "            output, fn, inputs = self.tape.pop(0)", "R11.2")
+fire("c11-tape-records-outside-guard", "C11", ADJOINT,
+     "            with self._old_interpretation:\n                result = cls(*args)\n            self.tape.append((result, cls, args))",
+     "            result = cls(*args)\n            self.tape.append((result, cls, args))", "R11.2")
+fire("c11-plate-divides-with-unsafe-inverse", "C11", ADJOINT,
+     "        div_op = ops.SAFE_BINARY_INVERSES[adj_prod_op]", "        div_op = ops.SAFE_BINARY_INVERSES[adj_sum_op]", "R11.3", "adjoint_reduce")
+fire("c11-cat-start-not-advanced-by-own-size", "C11", ADJOINT,
+     "        start += part.inputs[part_name].dtype\n", "        start += parts[0].inputs[part_name].dtype\n", "R11.5", "adjoint_cat")
+fire("c11-adjoint-pattern-arity", "C11", ADJOINT,
+     "@adjoint_ops.register(Cat, AssociativeOp, AssociativeOp, Funsor, str, tuple, str)",
+     "@adjoint_ops.register(Cat, AssociativeOp, AssociativeOp, Funsor, str, tuple)", "R11.1")
+silent("c11-s-product-commuted", "C11", ADJOINT,
+       "        lhs_adj = adj_prod_op(out_adj, rhs)\n        rhs_adj = adj_prod_op(out_adj, lhs)\n        return ((lhs, lhs_adj), (rhs, rhs_adj))",
+       "        lhs_adj = adj_prod_op(rhs, out_adj)\n        rhs_adj = adj_prod_op(lhs, out_adj)\n        return ((lhs, lhs_adj), (rhs, rhs_adj))")
+silent("c11-s-cat-size-local", "C11", ADJOINT,
+       "        part_slice = Slice(name, start, start + part.inputs[part_name].dtype, 1, size)\n        part_adj = out_adj(**{name: part_slice})\n        in_adjs.append((part, part_adj))\n        start += part.inputs[part_name].dtype\n",
+       "        part_size = part.inputs[part_name].dtype\n        part_slice = Slice(name, start, start + part_size, 1, size)\n        part_adj = out_adj(**{name: part_slice})\n        in_adjs.append((part, part_adj))\n        start += part_size\n")
